@@ -13,6 +13,16 @@ Cases (N = the limit passed to `Sieve::new`, all numbers decimal):
 * `mp N n` / `ip N n`          one accessor call (out of range ⇒ `panic:index`, outside the property's domain).
 * `fact N n`                   `factorize(n).collect()` as `[p^e,...]`.
 * `factm N n1,n2,...`          several factorisations on one sieve, joined by `/`.
+* `new N`                      construction alone + a summary: raw = `np=<#primes> hp=<fnv64 of primes()> first=.. last=.. mnpN=<min_prime(N)>
+                     ispN=<is_prime(N)>`; view = `ok` (harness: every entry of all three tables compared with its own Eratosthenes
+                     table, else the first bad entry / the panic of `Sieve::new`).  The driver answers MANY such lines from ONE
+                     cached table built for a limit `M ≥ N` (`foldUpTo`, `C13.foldUpTo_prefix`, `minPrime_prefix`, `isPrime_prefix`).
+* `itm N k ; n1 ; n2 ; ...`    for each `n`: `factorize(n)`, `k` calls of `next`, then every provided `Iterator` method on what is
+                     left (`Rlib.Sieve.modesOf`, `C13.iterModes_eq_spec`); records joined by ` / `.  `sh=` is `size_hint()`: `ok` iff the
+                     pair brackets the number of items left (the property fixes no value).
+* `live N1 N2 n1 n2 n3`        two sieves alive at once, three iterators (`a.factorize(n1)`, `b.factorize(n2)`, `a.factorize(n3)`)
+                     advanced in turn (every prime they return is fed back into `is_prime` / `min_prime` of both tables: view `fb=ok`); then
+                     the summaries of both tables, and of `b` again after `a` was dropped.
 -/
 open Rlib Rlib.Sieve
 
@@ -124,4 +134,105 @@ def handle (line : String) : String :=
     | _, _ => badLine line
   | _ => badLine line
 
-def main : IO Unit := driverMain handle
+/-! ### cached large table, dense limit sweep, consumption modes -/
+
+/-- a table for a limit `M` together with its prime list (`primesOf s`, converted once) -/
+structure Big where
+  M : Nat
+  s : St
+  ps : List Nat
+
+def mkBig (M : Nat) : Big := let s := sieve M; { M := M, s := s, ps := primesOf s }
+
+/-- a table whose limit is at least `N`: the cached one if it is large enough, else a new one (limits rounded up to
+    2^17 / 2^20 so that a sweep over many limits builds one table) -/
+def bigLimit (N : Nat) : Nat := if N ≤ 131072 then 131072 else if N ≤ 1048576 then 1048576 else N
+
+def getBig (c : Option Big) (N : Nat) : Big :=
+  match c with
+  | some b => if N ≤ b.M then b else mkBig (bigLimit N)
+  | none => mkBig (bigLimit N)
+
+def showOptNat : Option Nat → String
+  | none => "-"
+  | some p => toString p
+
+/-- what `Sieve::new(N)` shows in the summary, read off a table for `b.M ≥ N` -/
+def summaryAt (b : Big) (N : Nat) : String :=
+  -- three early-exit folds over the primes `≤ N` (`foldUpTo`, no intermediate list): count, FNV-64, last element
+  let np := foldUpTo (fun a _ => a + 1) N b.ps 0
+  let hp := foldUpTo fnvStep N b.ps fnvInit
+  let last := foldUpTo (fun _ p => p) N b.ps 0
+  let first := if np = 0 then none else b.ps.head?
+  s!"np={np} hp={toHex hp.toNat 16} first={showOptNat first} last={if np = 0 then "-" else toString last} " ++
+  s!"mnpN={showExcept toString (minPrime b.s N)} ispN={showExcept showBool (isPrime b.s N)}"
+
+def showItem (pe : Nat × Nat) : String := s!"{pe.1}^{pe.2}"
+def showOptItem : Option (Nat × Nat) → String
+  | none => "-"
+  | some pe => showItem pe
+def showItems (l : List (Nat × Nat)) : String := showListWith showItem l
+
+/-- one record of an `itm` line, without the `sh=` field -/
+def showModes (m : Modes) : String :=
+  "pre=<" ++ ",".intercalate (m.pre.map showOptItem) ++ ">" ++
+  s!" c={showItems m.collect} h={showItems m.collect} n={m.count} l={showOptItem m.last} f={m.fold} e={m.fold}" ++
+  s!" s={m.sumExp} p={m.prodExp1} mx={showOptItem m.max} mn={showOptItem m.min} xk={showOptItem m.maxByExp} nk={showOptItem m.minByExp}" ++
+  s!" rd={showOptItem m.reduce} fd={showOptItem m.find} ps={showOptNat m.position} an={showBool m.any} al={showBool m.all}" ++
+  s!" pt={showItems m.partition.1}+{showItems m.partition.2} uz={showNats m.unzip.1}+{showNats m.unzip.2}" ++
+  s!" n0={showOptItem m.nth0.1}>{showItems m.nth0.2} n1={showOptItem m.nth1.1}>{showItems m.nth1.2}" ++
+  s!" sk={showItems m.skip1} st={showItems m.stepBy2} tk={showItems m.take1.1}+{m.take1.2} eq=true"
+
+def modesRecord (s : St) (k n : Nat) : String × String :=
+  match factorize s (fuelFor n) n with
+  | .ok L => let t := showModes (modesOf L k) ++ " sh=ok"; (t, t)
+  | .error e => (e.toString, e.toString)
+
+def specRecord (k n : Nat) : String := showModes (modesOf (specFactorize (fuelFor n) n) k) ++ " sh=ok"
+
+def handleC (c : Option Big) (line : String) : String × Option Big :=
+  match splitOps line with
+  | [] => (badLine line, c)
+  | hdr :: ops =>
+    match tokens hdr, ops with
+    | ["new", sN], [] =>
+      match parseNat? sN with
+      | some N => let b := getBig c N; (answer3 (summaryAt b N) "ok" "ok", some b)
+      | none => (badLine line, c)
+    | ["itm", sN, sk], _ =>
+      match parseNat? sN, parseNat? sk, ops.mapM parseNat? with
+      | some N, some k, some ns =>
+        if ns.all (fun n => 1 ≤ n ∧ n ≤ N) then
+          let b := getBig c N
+          let rv := ns.map (modesRecord b.s k)
+          (answer3 (" / ".intercalate (rv.map Prod.fst)) (" / ".intercalate (rv.map Prod.snd))
+            (" / ".intercalate (ns.map (specRecord k))), some b)
+        else
+          let s := sieve N
+          let rv := ns.map (modesRecord s k)
+          (answer3 (" / ".intercalate (rv.map Prod.fst)) (" / ".intercalate (rv.map Prod.snd)) "any", c)
+      | _, _, _ => (badLine line, c)
+    | ["live", sA, sB, s1, s2, s3], [] =>
+      match parseNat? sA, parseNat? sB, parseNat? s1, parseNat? s2, parseNat? s3 with
+      | some A, some B, some n1, some n2, some n3 =>
+        if 1 ≤ n1 ∧ n1 ≤ A ∧ 1 ≤ n2 ∧ n2 ≤ B ∧ 1 ≤ n3 ∧ n3 ≤ A then
+          let b := getBig c (max A B)
+          let f := fun n => showExcept showFact (factorize b.s (fuelFor n) n)
+          let sp := fun n => showFact (specFactorize (fuelFor n) n)
+          (answer3 s!"a={f n1} b={f n2} c={f n3} A:{summaryAt b A} B:{summaryAt b B} B2:{summaryAt b B}"
+            s!"a={f n1} b={f n2} c={f n3} A:ok B:ok B2:ok fb=ok" s!"a={sp n1} b={sp n2} c={sp n3} A:ok B:ok B2:ok fb=ok", some b)
+        else (answer3 "out-of-domain" "out-of-domain" "any", c)
+      | _, _, _, _, _ => (badLine line, c)
+    | _, _ => (handle line, c)
+
+def main : IO Unit := do
+  let h ← IO.getStdin
+  let out ← IO.getStdout
+  let mut cache : Option Big := none
+  for _ in [0:4000000000] do
+    let line ← h.getLine
+    if line.isEmpty then break
+    let (ans, c') := handleC cache line
+    cache := c'
+    out.putStrLn ans
+  out.flush
